@@ -118,6 +118,9 @@ Goods0(kind) ==
      [] kind = "info" -> {G("full", With(Min("info"), << <<sDescr, S("d")>>, <<"termsOfService", UrlPlain>>,
                                <<"contact", Min("contact")>>, <<"license", Min("license")>> >>))}
      [] kind = "server" -> {G("var", OO(<< <<"url", S(Join(cUrlVar))>>,
+                               <<"variables", OO(<< <<"v", Min("serverVariable")>> >>)>> >>)),
+                            \* the URL may use a declared variable more than once
+                            G("var_twice", OO(<< <<"url", S(Join(cUrlVar2))>>,
                                <<"variables", OO(<< <<"v", Min("serverVariable")>> >>)>> >>))}
      [] kind = "components" -> {G("dotname", OO(<< <<"schemas", OO(<< <<Join(cNameDot), TString>> >>)>> >>))}
           \cup {G(SectionOf(k) \o "_" \o n.tag, OO(<< <<SectionOf(k), OO(<< <<Join(n.cs), Min(k)>> >>)>> >>))
@@ -240,7 +243,10 @@ Bads0(kind) ==
            Bd("variable_mismatch", "case", OO(<< <<"url", S(Join(cUrlVar))>>,
                                                  <<"variables", OO(<< <<"V", Min("serverVariable")>> >>)>> >>)),
            Bd("variable_mismatch", "unused", OO(<< <<"url", UrlPlain>>,
-                                                   <<"variables", OO(<< <<"v", Min("serverVariable")>> >>)>> >>))}
+                                                   <<"variables", OO(<< <<"v", Min("serverVariable")>> >>)>> >>)),
+           \* as many variables declared as there are placeholders, but one placeholder is a repetition and one variable unused
+           Bd("variable_mismatch", "repeated_unused", OO(<< <<"url", S(Join(cUrlVar2))>>,
+                                                   <<"variables", OO(<< <<"v", Min("serverVariable")>>, <<"w", Min("serverVariable")>> >>)>> >>))}
      [] kind = "serverVariable" -> {Bd("default_missing", "absent", OO(<< <<sDescr, S("d")>> >>))}
      [] kind = "components" ->
           {Bd("bad_component_name", SectionOf(k) \o "_space", OO(<< <<SectionOf(k), OO(<< <<Join(cNameSp), Min(k)>> >>)>> >>))
